@@ -952,6 +952,18 @@ class Context:
 
         return fn_constructor
 
+    def _to_index(self, value: JSValue) -> int:
+        """ToIndex: undefined is 0; a negative or non-finite integer is a RangeError."""
+        from .errors import JSRangeError
+        from .values import to_integer_or_infinity
+
+        if isinstance(value, JSObject) and self._current_vm is not None:
+            value = self._current_vm._to_primitive(value, "number")
+        index = to_integer_or_infinity(value)
+        if not 0 <= index <= 2**53 - 1:
+            raise JSRangeError(f"Invalid index or length: {index}")
+        return index
+
     def _create_typed_array_constructor(self, name: str) -> JSCallableObject:
         """Create a typed array constructor (Int32Array, Uint8Array, etc.)."""
         from .values import (
@@ -984,25 +996,40 @@ class Context:
         array_class = type_classes[name]
 
         def constructor_fn(*args):
-            if not args:
-                return array_class(0)
-            arg = args[0]
-            if isinstance(arg, (int, float)):
-                # new Int32Array(length)
-                return array_class(int(arg))
-            elif isinstance(arg, JSArrayBuffer):
+            from .errors import JSRangeError
+
+            arg = args[0] if args else UNDEFINED
+            if isinstance(arg, JSArrayBuffer):
                 # new Int32Array(buffer, byteOffset?, length?)
                 buffer = arg
-                byte_offset = int(args[1]) if len(args) > 1 else 0
                 element_size = array_class._element_size
-
-                if len(args) > 2:
-                    length = int(args[2])
+                byte_offset = self._to_index(args[1] if len(args) > 1 else UNDEFINED)
+                if byte_offset % element_size:
+                    raise JSRangeError(
+                        f"start offset of {name} should be a multiple of {element_size}"
+                    )
+                if len(args) > 2 and args[2] is not UNDEFINED:
+                    length = self._to_index(args[2])
+                    if byte_offset + length * element_size > buffer.byteLength:
+                        raise JSRangeError(f"Invalid typed array length: {length}")
                 else:
+                    if buffer.byteLength % element_size:
+                        raise JSRangeError(
+                            f"byte length of {name} should be a multiple of {element_size}"
+                        )
+                    if byte_offset > buffer.byteLength:
+                        raise JSRangeError(f"Start offset {byte_offset} is outside the bounds of the buffer")
                     length = (buffer.byteLength - byte_offset) // element_size
 
                 result = array_class(length, buffer, byte_offset)
                 return result
+            elif not isinstance(arg, JSObject):
+                # new Int32Array(length)
+                length = self._to_index(arg)
+                try:
+                    return array_class(length)
+                except (MemoryError, OverflowError):
+                    raise JSRangeError("Array buffer allocation failed")
             elif isinstance(arg, (JSArray, JSTypedArray)):
                 # new Int32Array([1, 2, 3]) / new Int32Array(otherTypedArray)
                 length = arg.length
@@ -1024,8 +1051,13 @@ class Context:
         from .values import JSArrayBuffer
 
         def constructor_fn(*args):
-            length = int(args[0]) if args else 0
-            return JSArrayBuffer(length)
+            from .errors import JSRangeError
+
+            length = self._to_index(args[0] if args else UNDEFINED)
+            try:
+                return JSArrayBuffer(length)
+            except (MemoryError, OverflowError):
+                raise JSRangeError("Array buffer allocation failed")
 
         constructor = JSCallableObject(constructor_fn)
         constructor._name = "ArrayBuffer"
